@@ -15,9 +15,20 @@ def main():
     a = ap.parse_args()
     from fcverif import runner
     pid = a.property.upper()
-    if a.replay:
-        sys.exit(runner.replay(pid, a.replay, a.json))
-    sys.exit(runner.run(pid, a.tier, a.seed, a.workers))
+    try:
+        if a.replay:
+            rc = runner.replay(pid, a.replay, a.json)
+        else:
+            rc = runner.run(pid, a.tier, a.seed, a.workers)
+    except SystemExit:
+        raise
+    except BaseException:
+        # a failure of the machinery itself (not of the code under test) is never reported as exit 1: that code is reserved for violations
+        import traceback
+        traceback.print_exc()
+        print('HARNESS-ERROR: the check itself failed before reaching a verdict')
+        sys.exit(3)
+    sys.exit(rc)
 
 
 main()
